@@ -81,7 +81,7 @@ static Case decode(vp::Dice &d)
     while (d.more() && c.cmds.size() < 40) {
         Cmd m;
         switch (d.weighted({6, 4, 3, 6, 3, 1})) {
-        case 0: m.op = "write"; m.x = offsetOf(d); m.y = lengthOf(d); break;
+        case 0: m.op = "write"; m.x = offsetOf(d); m.y = d.chance(1, 4) ? 3 * Page : lengthOf(d); break; // 3 pages: usually clipped = fills the gap
         case 1: m.op = "append"; m.y = lengthOf(d); break;
         case 2: m.op = "free"; m.x = offsetOf(d); m.y = d.range(0, 5); break; // y: 0 = as drawn, else snap to a data boundary
         case 3: m.op = "copy"; m.x = offsetOf(d); m.y = lengthOf(d); break;
@@ -98,14 +98,36 @@ enum : uint8_t { Absent = 0, Present = 1, Maybe = 2 };
 
 static unsigned char byteFor(long long tag, int64_t off) { return static_cast<unsigned char>(tag * 131 + off * 7 + (off >> 8) * 13 + 1); }
 
+#define NOSAN __attribute__((no_sanitize("address", "undefined")))
 namespace {
+/// presence map; `top` bounds the scans (nothing was ever written at or above it)
 struct Model {
     std::vector<uint8_t> st, val;
+    int64_t top = 0;
     Model() : st(MaxOff + 1, Absent), val(MaxOff + 1, 0) {}
-    int64_t next(int64_t from, uint8_t what) const { for (int64_t i = from; i < MaxOff; ++i) if (st[i] == what) return i; return -1; }
-    int64_t nextNot(int64_t from, uint8_t what) const { for (int64_t i = from; i < MaxOff; ++i) if (st[i] != what) return i; return MaxOff; }
+    /// first offset >= from in the given state, -1 if none (Absent: everything at or above top is absent)
+    NOSAN int64_t next(int64_t from, uint8_t what) const
+    {
+        const uint8_t *p = st.data();
+        for (int64_t i = from; i < top; ++i) if (p[i] == what) return i;
+        if (what == Absent && std::max(from, top) < MaxOff) return std::max(from, top);
+        return -1;
+    }
+    /// first offset >= from NOT in the given state (MaxOff if none)
+    NOSAN int64_t nextNot(int64_t from, uint8_t what) const
+    {
+        const uint8_t *p = st.data();
+        for (int64_t i = from; i < top; ++i) if (p[i] != what) return i;
+        if (what != Absent) return std::max(from, top);
+        return MaxOff;
+    }
     int64_t lowest(uint8_t what) const { return next(0, what); }
-    int64_t highest(uint8_t what) const { for (int64_t i = MaxOff - 1; i >= 0; --i) if (st[i] == what) return i; return -1; }
+    NOSAN int64_t highest(uint8_t what) const
+    {
+        const uint8_t *p = st.data();
+        for (int64_t i = top - 1; i >= 0; --i) if (p[i] == what) return i;
+        return -1;
+    }
 };
 } // namespace
 
@@ -116,8 +138,7 @@ static std::string judgeCopy(const mem_hdr &h, const Model &m, int64_t start, in
     const ssize_t got = h.copy(StoreIOBuffer(static_cast<size_t>(len), start, buf.data()));
     if (got < 0 || got > len) return "copy returned " + std::to_string(got) + " for a request of " + std::to_string(len);
     const int64_t sure = std::min<int64_t>(m.nextNot(start, Present) - start, len);   // certainly present prefix
-    int64_t may = start;                                                               // first certainly absent byte
-    while (may < MaxOff && m.st[may] != Absent) ++may;
+    const int64_t may = m.next(start, Absent) < 0 ? MaxOff : m.next(start, Absent);      // first certainly absent byte
     const int64_t most = std::min<int64_t>(may - start, len);
     if (got < sure) return "copy returned " + std::to_string(got) + " bytes, but " + std::to_string(sure) + " written bytes are contiguous from " + std::to_string(start);
     if (got > most) return "copy returned " + std::to_string(got) + " bytes across the missing byte at " + std::to_string(may);
@@ -176,6 +197,7 @@ static vp::Verdict check(const Case &c, vp::Ctx &ctx)
             if (!h.write(StoreIOBuffer(static_cast<size_t>(len), start, data.data()))) return vp::fail("mem:write-refused", where);
             std::fill(data.begin(), data.end(), 0); // the source buffer is the caller's: it goes away
             for (int64_t i = 0; i < len; ++i) { m.st[start + i] = Present; m.val[start + i] = byteFor(cmd.tag, start + i); }
+            m.top = std::max(m.top, start + len);
             boundaries.push_back(start); boundaries.push_back(start + len);
             if (leftNeighbour && rightNeighbour) { labels.insert("write:fills-gap-exactly"); sparse = true; }
             else if (leftNeighbour) labels.insert("write:appends-to-data");
